@@ -13,8 +13,10 @@ import (
 // RType / RValue model the tiny part of package reflect the library uses.
 type RType struct{ T types.Type }
 type RValue struct {
-	P Ptr
-	T types.Type
+	P    Ptr        // the pointer held (when T is a pointer type)
+	T    types.Type // dynamic type of the value
+	Addr Ptr        // address of the value when it is addressable (result of Indirect/Elem)
+	Adr  bool
 }
 
 func (e *Exec) resolveCallee(f *Frame, c *ssa.CallCommon) (*Closure, []Value) {
